@@ -80,21 +80,27 @@ func MustCompile(expr string, opts ...CompileOption) *Expression {
 
 // Evaluate the expression, returning either a collection of elements, or error
 func (e *Expression) Evaluate(input []fhir.Resource, options ...EvaluateOption) (system.Collection, error) {
+	// (converted item by item: slices.MustConvert cannot convert a nil interface)
+	collection := make(system.Collection, 0, len(input))
+	nilResource := -1
 	for i, resource := range input {
-		if resource == nil {
-			return nil, fmt.Errorf("input resource %d is nil", i)
+		if resource == nil && nilResource < 0 {
+			nilResource = i
 		}
+		collection = append(collection, resource)
 	}
 	config := &opts.EvaluateConfig{
-		Context: expr.InitializeContext(slices.MustConvert[any](input)),
+		Context: expr.InitializeContext(collection),
 	}
 	config, err := opts.ApplyOptions(config, options...)
 	if err != nil {
-		return nil, err
+		return nil, err // a failing option is reported before anything else
+	}
+	if nilResource >= 0 {
+		return nil, fmt.Errorf("input resource %d is nil", nilResource)
 	}
 
-	collection := slices.MustConvert[any](input)
-	return e.expression.Evaluate(config.Context, collection)
+	return e.expression.Evaluate(config.Context, slices.MustConvert[any](input))
 }
 
 // EvaluateAsString evaluates the expression, returning a string or error
